@@ -207,3 +207,40 @@ package rac
 //@   loop 2 invariant r.initialized && r.err == nil && crInv(r) && !r.needToResolveSeekPosition && int(n) == ar(r.currNode) && r.seekPosition == old(r.seekPosition)
 //@   loop 2 invariant implies(athead(1, r.needToResolveSeekPosition), inChunk(r))
 //@   loop 2 decreases int(n) - int(r.nextChunk)
+
+// ---- reader.go: sequential Reader.seek (same arithmetic as bytes.Reader.Seek) ----
+
+//@ func (*ChunkReader).SeekToChunkContaining
+//@   prop C14 C15
+//@   requires 0 <= r.seekPosition && implies(r.initialized && r.err == nil, crInv(r))
+//@   ensures implies(result == nil, r.err == nil && r.initialized && crInv(r) && r.needToResolveSeekPosition && r.seekPosition == dSpaceOffset && dSpaceOffset >= 0)
+//@   ensures implies(result != nil, r.err != nil)
+//@   ensures implies(old(r.initialized) && old(r.err) == nil, unchanged(r.decompressedSize))
+//@   modifies r.err, r.initialized, r.readSeeker, mem(r.currNode), r.needToResolveSeekPosition, r.rootNodeCOffset, r.rootNodeArity, r.decompressedSize, r.seekPosition
+
+//@ func (*concReader).ready
+//@   prop C14
+//@   pure
+//@   ensures result == !isnil(c.stopc)
+
+// seekTarget: where Seek(offset, whence) lands, as for an in-memory reader of
+// size dSize currently at pos (io.SeekStart = 0, io.SeekCurrent = 1, io.SeekEnd = 2).
+//@ spec seekTarget(pos int64, dSize int64, offset int64, whence int) mathint = ite(whence == 0, math(offset), ite(whence == 1, math(pos) + math(offset), math(dSize) + math(offset)))
+
+//@ func (*Reader).seek
+//@   prop C14
+//@   wraps add
+//@   requires 0 <= r.pos && 0 <= r.chunkReader.seekPosition && implies(r.chunkReader.initialized && r.chunkReader.err == nil, crInv(r.chunkReader)) && r.chunkReader.initialized && r.chunkReader.err == nil
+//@   ensures[whence] implies(isnil(old(r.concReader.stopc)) && (whence < 0 || whence > 2), result1 == errSeekToInvalidWhence)
+//@   ensures[position] implies(isnil(old(r.concReader.stopc)) && result1 == nil, math(result0) == seekTarget(old(r.pos), old(r.chunkReader.decompressedSize), offset, whence) && r.pos == result0 && 0 <= r.pos)
+//@   ensures[negative] implies(isnil(old(r.concReader.stopc)) && 0 <= whence && whence <= 2 && seekTarget(old(r.pos), old(r.chunkReader.decompressedSize), offset, whence) < 0 && seekTarget(old(r.pos), old(r.chunkReader.decompressedSize), offset, whence) >= 0 - 9223372036854775808, result1 != nil)
+//@   ensures[limit] implies(isnil(old(r.concReader.stopc)) && result1 == nil, r.posLimit == min(limit, r.chunkReader.decompressedSize))
+//@   ensures[stateA] implies(isnil(old(r.concReader.stopc)) && result1 == nil && r.pos != old(r.pos), r.dRange[0] == r.pos && r.dRange[1] == r.pos && r.decompressor == nil && !r.inImplicitZeroes)
+//@   modifies *r
+
+// The concurrent reader is outside what function contracts can decide; its seek
+// is only framed here so that the sequential branch of Reader.seek can be proved.
+//@ func (*concReader).seek
+//@   prop C14
+//@   trusted concurrent code path (goroutines, channels): not verified; assumed to touch only the concReader
+//@   modifies *c
